@@ -192,26 +192,44 @@ def _ours_loop_form(ctx, facts, body, it, r, sub, name, props):
         # kept clock = clock − other.clock
         good = False
         if kind == 'keep':
-            for vs in vals or []:
-                for v in vs:
-                    for alt in phi_alts(drop_lv(v)):
-                        cands = [alt]
-                        if alt[0] == 'tuple':
-                            cands = list(alt[1])
-                        for cnd in cands:
-                            clk = cnd
-                            for f in sub:
-                                clk = proj(clk, f)
-                            e = cexpr(clk)
-                            if e[0] == 'minus' and e[2] == leaf_param(2, (r['clock'],)) and e[1][0] == 'leaf' and _entry_clock_match(e[1][1], r, sub, 1):
-                                good = True
-        for bb, c2 in it.calls.items():
-            if bb in lp.blocks and call_name(c2.term) == 'reset_remove' and len(c2.args) == 2:
-                if _entry_clock_match(c2.args[0].val, r, sub, 1) and is_field_of_param(c2.args[1].val, 2, (r['clock'],)):
-                    # .. in every case in which the entry is kept: other is strictly behind it (Lt) or concurrent with it (None)
-                    if all(lp.must(Reach(facts, body, Evaluator(facts, classify=classify, bool_atom=atom, assumption={'theirs_has': False, 'drop': o_})), [bb])
-                           for o_ in (LT, NONE)):
-                        good = True
+            # the value put into the surviving collection, on the paths that survive each case in which an our-only entry is kept
+            # (other strictly behind it, or concurrent with it): in all of them the clock with other.clock subtracted
+            def is_minus(cnd):
+                clk = cnd
+                for f in sub:
+                    clk = proj(clk, f)
+                e = cexpr(clk)
+                return e[0] == 'minus' and e[2] == leaf_param(2, (r['clock'],)) and e[1][0] == 'leaf' and _entry_clock_match(e[1][1], r, sub, 1)
+            resets = [bb for bb, c2 in it.calls.items() if bb in lp.blocks and call_name(c2.term) == 'reset_remove' and len(c2.args) == 2
+                      and _entry_clock_match(c2.args[0].val, r, sub, 1) and is_field_of_param(c2.args[1].val, 2, (r['clock'],))]
+            verdicts = []
+            for o_ in (LT, NONE):
+                rc_ = Reach(facts, body, Evaluator(facts, classify=classify, bool_atom=atom, assumption={'theirs_has': False, 'drop': o_}))
+                inner_ = lp.inner(rc_)
+                for sb in sites:
+                    c_ = it.calls.get(sb)
+                    if c_ is None or sb not in inner_:
+                        continue
+                    # either what is stored is a freshly computed `clock − other.clock` ..
+                    hit_any, all_ok = False, True
+                    for a_ in c_.args[1:]:
+                        for a2 in phi_alts(drop_lv(a_.val)):
+                            cands = list(a2[1]) if a2[0] == 'tuple' else [a2]
+                            for cnd in cands:
+                                if is_minus(cnd):
+                                    hit_any = True
+                                elif _entry_clock_match(drop_lv(cnd) if not sub else drop_lv(proj(cnd, sub[0])), r, sub, 1):
+                                    hit_any, all_ok = True, False
+                    # .. or the entry's clock is reset in place on every path of this case that reaches the store
+                    in_place = bool(resets) and sb not in rc_._reach(lp.start, set(resets) | {lp.head})
+                    verdicts.append((hit_any and all_ok) or in_place)
+            good = bool(verdicts) and all(verdicts)
+        else:
+            # drop form (the collection is edited in place): every kept our-only entry passes the reset
+            resets = [bb for bb, c2 in it.calls.items() if bb in lp.blocks and call_name(c2.term) == 'reset_remove' and len(c2.args) == 2
+                      and _entry_clock_match(c2.args[0].val, r, sub, 1) and is_field_of_param(c2.args[1].val, 2, (r['clock'],))]
+            good = bool(resets) and all(lp.must(Reach(facts, body, Evaluator(facts, classify=classify, bool_atom=atom, assumption={'theirs_has': False, 'drop': o_})), resets)
+                                        for o_ in (LT, NONE))
         ctx.check(good, name + '/subtract', body, 'kept entry clock = entry clock − other.clock',
                   'the witness clock of a kept entry is not reduced by other.clock: dots other has seen and removed stay as witnesses', line=line, props=props)
         return True
